@@ -4,6 +4,7 @@ import Driver.Smtp
 import Driver.Pop3
 import Driver.San
 import Driver.Broker
+import Driver.Hub
 open Driver
 
 /-
@@ -18,5 +19,6 @@ def main (args : List String) : IO UInt32 := do
   | ["pop3"] => Driver.Pop3.main
   | ["san"] => runLoop (fun (_ : Unit) toks => ((), (sanHandler toks).getD "bad-op")) ()
   | ["broker"] => runLoop brokerStep {}
+  | ["hub"] => Driver.HubMode.main
   | _ => IO.eprintln s!"unknown mode {args}"; return 2
   return 0
